@@ -1230,6 +1230,40 @@ func (g *G) useListOrders() {
 		}
 	}
 doneBA:
+	// uselistorder_bb (module level only): a named block of a named function that is the target of two or
+	// more terminator operands and whose address is not taken. LLVM counts one use per operand (both arms of
+	// a conditional branch, every switch case), none for phi entries; numeric labels are not allowed here.
+	if g.chance("ulo-bb", 1, 2) {
+		for _, f := range m.Funcs {
+			if f.Name == "" || len(f.Blocks) < 2 {
+				continue
+			}
+			uses := map[*am.Block]int{}
+			for _, b := range f.Blocks {
+				if b.Term == nil {
+					continue
+				}
+				for _, t := range b.Term.Targets {
+					uses[t]++
+				}
+				for _, t := range b.Term.Handlers {
+					uses[t]++
+				}
+			}
+			for _, b := range f.Blocks {
+				if n := uses[b]; n >= 2 && n <= 6 && b.Name != "" && !g.blockAddressTaken(b) {
+					ix := make([]uint64, n)
+					for i := range ix {
+						ix[i] = uint64((i + 1) % n)
+					}
+					m.UseListOrders = append(m.UseListOrders, &am.UseListOrder{Fn: f, BB: b, Indices: ix})
+					g.feat("uselistorder/bb")
+					goto doneBB
+				}
+			}
+		}
+	}
+doneBB:
 	// function level: a value with exactly two uses
 	for _, f := range m.Funcs {
 		if f.Blocks == nil || !g.chance("ulo-local", 1, 2) {
